@@ -263,14 +263,16 @@ pub(crate) fn run_scheduling_solver(
         };
         let batch_rqv = request_map.get(batch.resource_rq_id);
         assert!(!task_counts.is_empty());
-        if !batch.limit_reached {
-            solver.set_name(|| format!("size limit for rq{}", batch.resource_rq_id));
-            solver.add_constraint(
-                ConstraintType::Max,
-                batch.size as f64,
-                task_counts.iter().map(|v| (*v, 1.0)),
-            )
-        }
+        // The batch size has to be enforced even if the limit of the batch is reached,
+        // because the limit does not have to be an upper bound of what fits into workers
+        // (the number of tasks per worker is capped when the limit is computed).
+        // Otherwise, more tasks than there are in the queue may be placed.
+        solver.set_name(|| format!("size limit for rq{}", batch.resource_rq_id));
+        solver.add_constraint(
+            ConstraintType::Max,
+            batch.size as f64,
+            task_counts.iter().map(|v| (*v, 1.0)),
+        );
         let batch_size = batch.size as f64;
         blocked_by_unbounded.clear();
         for cut in &batch.cuts {
